@@ -69,7 +69,10 @@ fn cmd_check(args: &[String]) -> i32 {
   let runs: Option<u64> = opt(args, "--runs").and_then(|s| s.parse().ok());
   let spec = match registry::spec_for(id) { Some(s) => s, None => { eprintln!("harness error: no check for property {}", id); return 2; } };
   println!("seed={} tier={} threads={} property={} repo={}", seed, tier, threads, id, env!("VERIF_REPO_BUILT"));
-  if let Err(e) = registry::determinism_precheck(&spec, seed, thorough) { eprintln!("harness error: determinism self-check failed: {}", e); return 2; }
+  match registry::determinism_precheck(&spec, seed, thorough) {
+    Err(e) => { eprintln!("harness error: determinism self-check failed: {}", e); return 2; }
+    Ok(nondet) => { if nondet { engine::SUT_NONDETERMINISTIC.store(true, std::sync::atomic::Ordering::Relaxed); } }
+  }
   let rep = run_check(&spec, seed, thorough, threads.max(1), runs, !args.iter().any(|a| a == "--no-evidence"));
   rep.exit
 }
